@@ -247,6 +247,16 @@ def run(ctx):
         "PARSE", floor=2,
     )
     _optconf_parse(ctx, r6, repo)
+    r7 = ctx.rule(
+        "C19.R7",
+        "IMPORT-TIME-DEFAULT: a click option / argument default written as a CALL in the decorator is evaluated once, when the CLI "
+        "module is imported; a default that stands for process state at INVOCATION time (the working directory, the environment, the "
+        "time) must therefore be a literal ('.'), or a callable handed to click uncalled (`default=Path.cwd`), never the result of "
+        "calling it in the decorator (`default=Path.cwd()`): after a chdir the command would read or write in the directory the "
+        "process was in at import",
+        "EFFECT", floor=10,
+    )
+    _import_time_defaults(ctx, r7, repo)
     from . import c19cli
     c19cli.check_infer(ctx, r4, repo)
     c19cli.check_inspect(ctx, r4, repo)
@@ -571,3 +581,33 @@ def _optconf_parse(ctx, rid, repo):
         ctx.violated(rid, f, "optconf parsing", f"raises {e.exc_name} on well-formed options", node=f.node)
     except errs as e:
         ctx.unrecognised(rid, f, "optconf parsing", f"not interpretable: {type(e).__name__}: {e}")
+
+
+def _import_time_defaults(ctx, rid, repo):
+    PROCESS_STATE = {"cwd", "getcwd", "getcwdb", "getenv", "now", "today", "time", "gettempdir", "expanduser", "home", "environ.get", "getuser", "getpid", "mkdtemp"}
+    n = 0
+    for fn in ("infer.py", "spec.py", "patchset.py", "rootio.py", "cli.py", "complete.py"):
+        try:
+            m = repo.module(CLI + fn)
+        except Exception:  # noqa: BLE001
+            continue
+        ctx.touch_file(m.relpath)
+        for f in m.funcs.values():
+            for d in getattr(f.node, "decorator_list", []):
+                if not (isinstance(d, ast.Call) and (A.dotted(d.func) or "").split(".")[-1] in ("option", "argument")):
+                    continue
+                kw = next((k for k in d.keywords if k.arg == "default"), None)
+                if kw is None:
+                    continue
+                n += 1
+                name = next((A.const_value(a) for a in d.args if isinstance(A.const_value(a), str)), "?")
+                site = f"{m.relpath}::{f.qualname} {name}"
+                calls = [c for c in ast.walk(kw.value) if isinstance(c, ast.Call)]
+                bad = [c for c in calls if (A.dotted(c.func) or "").split(".")[-1] in PROCESS_STATE or any((A.dotted(c.func) or "").endswith(s_) for s_ in PROCESS_STATE)]
+                if bad:
+                    ctx.violated(rid, f, f"default of {name}", f"the default of `{name}` is `{A.short(kw.value, 40)}`, evaluated when {m.relpath} is imported: a process that changes its working directory (environment, ...) afterwards gets the value of import time, so the command reads / writes somewhere else than documented", expected="a literal, or the callable itself (click calls it at invocation)", found=A.short(kw.value, 40), node=kw.value)
+                elif calls:
+                    ctx.unrecognised(rid, f, f"default of {name}", f"the default `{A.short(kw.value, 40)}` is computed by a call this rule does not know")
+                else:
+                    ctx.holds(rid, site, f"default {A.short(kw.value, 30)}: a literal / an uncalled callable")
+    ctx.extra["click_defaults_seen"] = n
